@@ -352,6 +352,13 @@ impl<T: Qcow2IoOps> Qcow2Dev<T> {
                 drop(l2_table);
 
                 if compressed {
+                    // The new mapping has to be on disk before the old
+                    // clusters are released: the refcount decrement may be
+                    // flushed (and the clusters reused) at any time from now
+                    // on, and after a crash the old mapping would point to
+                    // clusters that are free or belong to someone else.
+                    self.call_fsync(0, usize::MAX, 0).await?;
+
                     // free clusters in original compressed mapping
                     // finally, this update needn't be flushed immediately,
                     // and can be update in ram
